@@ -1,49 +1,545 @@
 """C03 — the diff is a faithful, lossless description of old versus new (DESIGN §3.C03)."""
 from __future__ import annotations
 
+import random
+
 from .. import core, pipeline as P
+from ..core import cstr, clist, cnat, cpair
 
 ID = "C03"
 THEOREM_FILE = "Properties/C03.v"
 META = {
-    "text": "Proof (Coq, any rule matcher, any rulebook with default/ordered/rewrite diff logics, trees of any depth): "
-            "theorems about the model of make_diff listed in coq/Properties/C03.v. Correspondence: the model's "
-            "make_diff/strip_unchanged equal the implementation's on generated rulebooks and config pairs, and the "
-            "declarative checker P_C03 (ops exact at every depth, every known row accounted for, ordered rows in "
-            "new's order, MOVED iff the prefix deviates, self-diff empty) is evaluated by Coq on the real outputs.",
-    "technique": "Coq induction over annotated config trees; vm_compute differential check on real make_diff outputs",
+    "text": (
+        "PROVED for all inputs (Coq, closed under the global context; any rule matcher, any rulebook built from the "
+        "default / %ordered / %rewrite diff logics, config trees of any depth whose sibling rows are distinct): "
+        "(make_diff) ops are exact at every depth, every row the rulebook knows is accounted for exactly once per "
+        "level, entries carry rule and key, and rows of %rewrite rules may be missing from the diff only when the "
+        "whole %rewrite group of that level is unchanged at every depth (same rows, rule and key, same order where "
+        "order matters, recursively) [C03_lossless]; self-diff empty [C03_self_empty]; %ordered rows in new's "
+        "order [C03_ordered_in_new_order]; MOVED characterisation at EVERY depth: below a MOVED entry every "
+        "surviving row is MOVED, elsewhere a surviving %ordered row is MOVED iff the prefix of new up to it "
+        "deviates from old [C03_moved_all_depths, C03_moved_iff_prefix_deviates]; a %rewrite block that is shown "
+        "is shown re-entered as a whole [C03_rewrite_shown_whole]; the predicate P_C03 evaluated on real outputs "
+        "holds of the model [C03_P_holds_of_model]. "
+        "(text views) a signed-line parser parse_signed is defined in Coq; for every formatter parameter set "
+        "(indent of n>=1 blanks, block_begin/block_end/statement_end: plain, brace and RouterOS families) "
+        "parse_signed fmt (diff_lines fmt d) = Some (shape d) for every diff without UNCHANGED entries whose rows "
+        "do not start with a blank, hence formatter.diff is injective [C03_render_roundtrip, C03_render_injective]; "
+        "gen_pre_as_diff(make_pre(d)) read back by the same parser gives the stripped diff up to a permutation of "
+        "the entries of every level [C03_pre_render]. "
+        "CORRESPONDENCE (testing, bounded by the generators): Coq compares the model's make_diff / strip_unchanged / "
+        "diff_lines / pre_lines with the real make_diff, _diff_and_patch, formatter.diff of every vendor's formatter "
+        "and gen_pre_as_diff(make_pre(.)) (also after resort_diff), and evaluates P_C03 and the read-back predicates "
+        "on the real outputs. Inputs: the shared pipeline stream plus a separately seeded stream of reorderings of "
+        "%ordered/%rewrite rows (reversal, swaps with fixed points, rotations, permutations, moves, nested-only "
+        "changes, with insertions/removals, at depth 1-3)."),
+    "technique": "Coq induction over annotated config trees, diffs and signed-line listings; vm_compute differential "
+                 "check on real make_diff / formatter.diff / gen_pre_as_diff outputs",
+    "note": "The theorems are about the Gallina model; the tie to the code is differential testing. Not modelled: "
+            "%ignore_case re-keying, %multiline, vendor %diff_logic functions (out of the property's scope), colours "
+            "and the show_rules comment lines of gen_pre_as_diff, resort_diff's comparison function (only the "
+            "per-level multiset of its output is checked).",
 }
 
+AO = "(annot_f pm (pc_rules c) (pc_old c))"
+AN = "(annot_f pm (pc_rules c) (pc_new c))"
 HOLDS = {
-    "lossless": "fun c => lossless (annot_f pm (pc_rules c) (pc_old c)) (annot_f pm (pc_rules c) (pc_new c)) (pc_diff_full c)",
-    "order": "fun c => order_ok (annot_f pm (pc_rules c) (pc_new c)) (pc_diff_full c)",
-    "moved": "fun c => moved_ok_top (annot_f pm (pc_rules c) (pc_old c)) (annot_f pm (pc_rules c) (pc_new c)) (pc_diff_full c)",
+    "lossless": f"fun c => lossless {AO} {AN} (pc_diff_full c)",
+    "order": f"fun c => order_ok {AN} (pc_diff_full c)",
+    "moved": f"fun c => moved_ok {AO} {AN} (pc_diff_full c)",
+    "rewrite_whole": f"fun c => rewrite_whole {AO} {AN} (pc_diff_full c)",
     "self_empty": "fun c => negb (forest_eqb (pc_old c) (pc_new c)) || match strip_unchanged (pc_diff_full c) with [] => true | _ => false end",
     "projections": "fun c => has_rewrite (pc_rules c) || P_C03_proj pm (pc_rules c, pc_old c, pc_new c) (pc_diff_full c)",
     "stripped_is_strip_of_full": "fun c => match pc_patch c with None => true | Some _ => diff_eqb (strip_unchanged (pc_diff_full c)) (pc_diff c) end",
 }
 WHAT = {
-    "lossless": "an op is not exact or a known row is not accounted for in make_diff's output",
+    "lossless": "an op is not exact, or a known row is not accounted for in make_diff's output (a %rewrite row may be "
+                "missing only when its whole group is unchanged at every depth)",
     "order": "rows of an %ordered rule do not appear in new's order in the diff",
-    "moved": "MOVED does not coincide with 'prefix of new deviates from old' in an %ordered block",
+    "moved": "MOVED does not coincide with 'prefix of new deviates from old' in an %ordered block (some depth)",
+    "rewrite_whole": "a %rewrite block is shown but an entry at or below it is AFFECTED/UNCHANGED instead of MOVED",
     "self_empty": "diff of a configuration with itself is not empty after strip_unchanged",
     "projections": "dropping added/removed entries does not give old|R / new|R",
     "stripped_is_strip_of_full": "the diff returned by _diff_and_patch is not strip_unchanged(make_diff)",
 }
 
+# ------------------------------------------------------------------ reorder stream
 
-def tweak(rng, c, i):
-    if i % 6 == 0:
-        c = dict(c, new=c["old"])
+KEYS = ["1", "2", "3", "x", "y", "10.0.0.1", "Eth1", "7", "z9", "lo0"]
+KINDS = ["reverse", "swap", "swap_ends", "rotate", "perm", "move_one", "nested_only", "nested_only", "same"]
+
+
+def _rule(pat, **kw):
+    r = {"pat": pat, "ign": False, "glob": False, "logic": "default", "mode": "", "parent": False,
+         "force_commit": False, "kids": []}
+    r.update(kw)
+    return r
+
+
+def _body_rules(rng, levels: int) -> list[dict]:
+    """child rules below an ordered/rewrite row: `levels` nested default-logic levels (0 = leaf rows only)"""
+    if levels <= 0:
+        return []
+    out = [_rule("set *", kids=[]), _rule("opt * *")]
+    blk = _rule("if *", kids=_body_rules(rng, levels - 1) or [_rule("set *")])
+    if rng.random() < 0.3:
+        blk["mode"] = rng.choice(["ordered", "rewrite"])
+    out.append(blk)
+    rng.shuffle(out)
+    return out
+
+
+def _body(rng, rules: list[dict], depth: int = 0) -> dict:
+    t: dict = {}
+    for r in rules:
+        if rng.random() < 0.25:
+            continue
+        for _ in range(rng.choice([1, 1, 2, 3])):
+            row = P.inst(rng, r["pat"], extra=False)
+            if row in t:
+                continue
+            t[row] = _body(rng, r["kids"], depth + 1) if r["kids"] else {}
+    items = list(t.items())
+    rng.shuffle(items)
+    return dict(items)
+
+
+def _mutate_deep(rng, t: dict, min_depth: int, depth: int = 0) -> bool:
+    """change one leaf at relative depth >= min_depth below t's rows (in place); True if done"""
+    rows = list(t)
+    rng.shuffle(rows)
+    for row in rows:
+        if t[row] and _mutate_deep(rng, t[row], min_depth, depth + 1):
+            return True
+    if depth >= min_depth and rows:
+        row = rows[0]
+        ws = row.split()
+        new_row = " ".join(ws[:-1] + [ws[-1] + "9"])
+        if new_row in t:
+            return False
+        op = rng.choice(["replace", "replace", "remove", "add"])
+        items = list(t.items())
+        i = [k for k, _ in items].index(row)
+        if op == "replace":
+            items[i] = (new_row, t[row])
+        elif op == "remove":
+            del items[i]
+        else:
+            items.insert(rng.randrange(len(items) + 1), (new_row, {}))
+        t.clear()
+        t.update(items)
+        return True
+    return False
+
+
+def _deepcopy(t: dict) -> dict:
+    return {k: _deepcopy(v) for k, v in t.items()}
+
+
+def gen_reorder_case(rng: random.Random) -> dict:
+    """A rulebook with one %ordered or %rewrite rule at config depth 1-3 and a pair (old, new) in which the
+    rows of that rule are reordered (with fixed points), optionally with insertions / removals / nested edits."""
+    v = rng.choice(P.BLOCK_VENDORS)
+    mode = rng.choice(["ordered", "rewrite"])
+    depth = rng.choice([1, 2, 2, 3])
+    shape = rng.choice(["star", "star", "star2", "global"]) if depth > 1 else rng.choice(["star", "star", "star2"])
+    body_levels = rng.choice([0, 1, 2, 2])
+    if shape == "global":
+        grule = _rule("stmt ~", glob=True, mode=mode)
+        body_rules = None
+    else:
+        grule = _rule("entry *" if shape == "star" else "entry * *", mode=mode, kids=_body_rules(rng, body_levels))
+        body_rules = grule["kids"]
+    level_rules = [grule]
+    if rng.random() < 0.6:
+        level_rules.append(_rule("mtu *"))
+    if rng.random() < 0.3:
+        level_rules.append(_rule("peer *", mode=rng.choice(["ordered", "rewrite", ""])))
+    rng.shuffle(level_rules)
+    rules = level_rules
+    parents = []
+    for lvl in range(depth - 1):
+        pat = ["alpha *", "beta *"][lvl]
+        parents.insert(0, pat)
+    for pat in parents[::-1]:
+        sib = [_rule("name *")] if rng.random() < 0.4 else []
+        rules = [_rule(pat, kids=rules)] + sib
+    # ---- old
+    n = rng.choice([3, 3, 4, 5, 6])
+    keys = rng.sample(KEYS, n + 2)
+
+    def grow(k):
+        if shape == "global":
+            return "stmt " + k + (" " + rng.choice(KEYS) if rng.random() < 0.4 else "")
+        if shape == "star2":
+            return f"entry {k} {rng.choice(KEYS)}"
+        return "entry " + k + (" " + rng.choice(KEYS) if rng.random() < 0.3 else "")
+
+    def gbody():
+        if shape == "global":
+            if body_levels == 0 or rng.random() < 0.3:
+                return {}
+            return {"stmt " + " ".join(rng.sample(KEYS, 2)): ({"stmt " + " ".join(rng.sample(KEYS, 2)): {}}
+                                                              if body_levels > 1 and rng.random() < 0.7 else {})
+                    for _ in range(rng.choice([1, 2]))}
+        return _body(rng, body_rules)
+
+    group = [(grow(k), gbody()) for k in keys[:n]]
+    others = []
+    if any(r["pat"] == "mtu *" for r in level_rules) and rng.random() < 0.8:
+        others.append(("mtu " + rng.choice(KEYS), {}))
+    if any(r["pat"] == "peer *" for r in level_rules):
+        others += [("peer " + k, {}) for k in rng.sample(KEYS, rng.choice([1, 2, 3]))]
+
+    def level(grp, oth, r):
+        items = list(grp)
+        for o in oth:
+            items.insert(r.randrange(len(items) + 1), o)
+        res = {}
+        for k, b in items:
+            res.setdefault(k, b)
+        return res
+
+    # ---- new
+    kind = rng.choice(KINDS)
+    g2 = [(k, _deepcopy(b)) for k, b in group]
+    if kind == "reverse":
+        g2.reverse()
+    elif kind == "swap":
+        i, j = sorted(rng.sample(range(n), 2))
+        if j == i + 1 and n > 2:
+            (i, j) = (i, j + 1) if j + 1 < n else (i - 1, j) if i > 0 else (i, j)
+        g2[i], g2[j] = g2[j], g2[i]
+    elif kind == "swap_ends":
+        g2[0], g2[-1] = g2[-1], g2[0]
+    elif kind == "rotate":
+        k = rng.randrange(1, n)
+        g2 = g2[k:] + g2[:k]
+    elif kind == "perm":
+        rng.shuffle(g2)
+    elif kind == "move_one":
+        x = g2.pop(rng.randrange(n))
+        g2.insert(rng.randrange(n), x)
+    nested = False
+    if kind == "nested_only":
+        cand = [b for _, b in g2 if b]
+        rng.shuffle(cand)
+        for b in cand:
+            if _mutate_deep(rng, b, rng.choice([0, 1, 1])):
+                nested = True
+                break
+    inserted = removed = False
+    if kind not in ("nested_only", "same"):
+        if rng.random() < 0.35:
+            g2.insert(rng.randrange(len(g2) + 1), (grow(keys[n]), gbody()))
+            inserted = True
+        if rng.random() < 0.3 and len(g2) > 2:
+            del g2[rng.randrange(len(g2))]
+            removed = True
+        if rng.random() < 0.3:
+            cand = [b for _, b in g2 if b]
+            if cand and _mutate_deep(rng, rng.choice(cand), 0):
+                nested = True
+    o2 = list(others)
+    if o2 and rng.random() < 0.3:
+        rng.shuffle(o2)
+    r1, r2 = random.Random(rng.random()), random.Random(rng.random())
+    old = level(group, others, r1)
+    new = level(g2, o2, r2 if rng.random() < 0.5 else random.Random(0))
+    for i, pat in enumerate(parents[::-1]):
+        prow = pat.replace("*", rng.choice(KEYS))
+        extra_o = {"name " + rng.choice(KEYS): {}} if rng.random() < 0.3 else {}
+        old = dict({prow: old}, **extra_o)
+        new = dict({prow: new}, **extra_o)
+    # fixed point: a surviving group row that keeps its absolute index although the surviving rows before it changed
+    ko, kn = [k for k, _ in group], [k for k, _ in g2]
+    both = [k for k in ko if k in kn]
+    fixed = any(ko.index(k) == kn.index(k) and
+                [x for x in ko[:ko.index(k)] if x in both] != [x for x in kn[:kn.index(k)] if x in both]
+                for k in both)
+    c = {"vendor": v, "rules": rules, "orules": [], "old": old, "new": new,
+         "patching": P.rules_text(rules), "ordering": "",
+         "stream": "reorder",
+         "tags": {"mode": mode, "depth": depth, "shape": shape, "kind": kind, "rows": n, "body_levels": body_levels,
+                  "inserted": inserted, "removed": removed, "nested_edit": nested, "fixed_point": fixed}}
     return c
 
 
+def reorder_histogram(cases: list[dict]) -> dict:
+    h: dict = {"cases": 0}
+    for c in cases:
+        t = c.get("tags")
+        if not t:
+            continue
+        h["cases"] += 1
+        for k in ("mode", "depth", "shape", "kind", "rows", "body_levels"):
+            d = h.setdefault(k, {})
+            d[str(t[k])] = d.get(str(t[k]), 0) + 1
+        for k in ("inserted", "removed", "nested_edit", "fixed_point"):
+            h[k] = h.get(k, 0) + (1 if t[k] else 0)
+        key = f"{t['mode']}/fixed_point" if t["fixed_point"] else None
+        if key:
+            h[key] = h.get(key, 0) + 1
+        if t["kind"] == "nested_only" and t["nested_edit"]:
+            k2 = f"{t['mode']}/nested_only_change"
+            h[k2] = h.get(k2, 0) + 1
+    return h
+
+
+# ------------------------------------------------------------------ textual views
+
+TEXT_IMPORTS = ("From Annet Require Import Base.Str Base.Tree Model.Rulebook Model.Diff Model.Order Model.Patch "
+                "Model.DiffText Spec.P_C03Text.")
+TEXT_TY = "(string * string) * list dnode * (option (list string) * list string * option (list string))"
+TEXT_DEFS = """
+Definition tcase := ((string * string) * list dnode * (option (list string) * list string * option (list string)))%type.
+Definition t_vendor (c : tcase) := fst (fst (fst c)).
+Definition t_indent (c : tcase) := snd (fst (fst c)).
+Definition t_diff (c : tcase) := snd (fst c).
+Definition t_confirm (c : tcase) := fst (fst (snd c)).
+Definition t_pre (c : tcase) := snd (fst (snd c)).
+Definition t_pre_resorted (c : tcase) := snd (snd c).
+Definition with_fmt (c : tcase) (f : tfmt -> bool) : bool :=
+  match vendor_tfmt (t_vendor c) (t_indent c) with Some F => f F | None => false end.
+"""
+TEXT_PREDS = {
+    "agree_text_confirm": "fun c => with_fmt c (fun F => olines_eqb (diff_lines F (t_diff c)) (t_confirm c))",
+    "agree_text_pre": "fun c => lines_eqb (pre_lines (t_indent c) 0 (make_pre (t_diff c))) (t_pre c)",
+    "holds_text_confirm": "fun c => with_fmt c (fun F => confirm_ok F (t_diff c) (t_confirm c))",
+    "holds_text_pre": "fun c => pre_ok (t_indent c) (t_diff c) (t_pre c)",
+    "holds_text_pre_resorted": "fun c => match t_pre_resorted c with Some l => pre_ok (t_indent c) (t_diff c) l | None => true end",
+}
+TEXT_WHAT = {
+    "text_confirm": "formatter.diff(d) read back by parse_signed does not give d's entries, signs and nesting",
+    "text_pre": "gen_pre_as_diff(make_pre(d)) read back does not give, level by level, d's entries minus UNCHANGED",
+    "text_pre_resorted": "gen_pre_as_diff(make_pre(resort_diff(d))) read back does not give d's entries level by level",
+}
+ALLV = sorted(P.VENDORS)
+INDENTS = [" ", "  ", "  ", "    "]
+TROWS = ["a", "b 1", "c d e", "}", "x {", "y;", "z/", "set 1", "if a then", "-q", "+p", "> r", "{", "e} f", "k ;"]
+TOPS = ["added", "removed", "moved", "affected", "unchanged"]
+
+
+def gen_direct_diff(rng, depth=0, max_depth=4, unchanged=True) -> list:
+    """a diff built directly: all five ops, depth <= 4, delimiter-like rows, repeated (rule, key) slots"""
+    out, seen = [], set()
+    for _ in range(rng.choice([1, 2, 2, 3, 4]) if depth else rng.choice([1, 2, 3, 4, 5])):
+        row = rng.choice(TROWS)
+        op = rng.choice(TOPS if unchanged else TOPS[:4])
+        if (row, op) in seen:
+            continue
+        seen.add((row, op))
+        kids = gen_direct_diff(rng, depth + 1, max_depth, unchanged) if depth + 1 < max_depth and rng.random() < 0.45 else []
+        out.append({"op": op, "row": row, "raw": rng.choice(["r1 *", "r2", "r3 ~"]), "key": rng.choice([[], ["1"], ["1", "x"]]),
+                    "kids": kids})
+    return out
+
+
+def _has_unchanged(d) -> bool:
+    return any(n["op"] == "unchanged" or _has_unchanged(n["kids"]) for n in d)
+
+
+def _ddepth(d) -> int:
+    return 0 if not d else 1 + max(_ddepth(n["kids"]) for n in d)
+
+
+def text_stage(ctx, outs):
+    rng = ctx.rng("text")
+    tcases = []
+    for i, o in enumerate(outs):
+        if o.get("diff") and (ctx.thorough or i % 2 == 0 or i % 4 == 3):
+            tcases.append({"src": "pipeline-stripped", "diff": o["diff"]})
+        if o.get("diff_full") and i % 5 == 0:
+            tcases.append({"src": "pipeline-full", "diff": o["diff_full"]})
+    n_direct = 3000 if ctx.thorough else 300
+    for k in range(n_direct):
+        tcases.append({"src": "direct", "diff": gen_direct_diff(rng, unchanged=(k % 3 == 0))})
+    for k, t in enumerate(tcases):
+        t["vendor"] = ALLV[k % len(ALLV)]
+        t["indent"] = INDENTS[(k // len(ALLV)) % len(INDENTS)]
+    res_impl = core.run_impl_sharded("c03_runner.py", [{k: t[k] for k in ("vendor", "indent", "diff")} for t in tcases])
+    fatal = [i for i, o in enumerate(res_impl) if "fatal" in o]
+    for i in fatal[:1]:
+        ctx.add_violation(core.Violation(signature="C03/text/implementation-raised",
+                                         what="formatter.diff / make_pre / gen_pre_as_diff raised: " + res_impl[i]["fatal"][-300:],
+                                         replay={"case": tcases[i], "impl": res_impl[i]}))
+    keep = [i for i in range(len(tcases)) if i not in set(fatal)]
+
+    def olines(x):
+        return core.copt(None if x is None else clist(cstr(l) for l in x))
+
+    terms = []
+    for i in keep:
+        t, o = tcases[i], res_impl[i]
+        terms.append(cpair(cpair(cpair(cstr(t["vendor"]), cstr(t["indent"])), P.coq_diff(t["diff"])),
+                           cpair(cpair(olines(o["confirm"]), clist(cstr(l) for l in o["pre"])), olines(o.get("pre_resorted")))))
+    res = core.run_case_files(ctx.prop, "tcase", TEXT_IMPORTS, TEXT_PREDS, terms, per_file=120, tag="text",
+                              extra_defs=TEXT_DEFS)
+    res = {k: [keep[j] for j in v] for k, v in res.items()}
+    any_holds = False
+    for k in ("text_confirm", "text_pre", "text_pre_resorted"):
+        bad = sorted(res["holds_" + k], key=lambda i: len(str(tcases[i]["diff"])))
+        for i in bad[:1]:
+            any_holds = True
+            ctx.add_violation(core.Violation(signature=f"C03/{k}", what=TEXT_WHAT[k],
+                                             replay={"case": tcases[i], "impl": res_impl[i], "clause": k}))
+    if not any_holds:
+        for k in ("text_confirm", "text_pre"):
+            bad = sorted(res["agree_" + k], key=lambda i: len(str(tcases[i]["diff"])))
+            for i in bad[:1]:
+                ctx.add_violation(core.Violation(
+                    signature=f"C03/model-impl-disagree/{k}",
+                    what=f"Coq model of the textual view and the implementation differ on '{k}'; the read-back "
+                         f"predicates hold on every real listing explored",
+                    replay={"case": tcases[i], "impl": res_impl[i], "correspondence": k}, no_input=True))
+    vh, ih, sh = {}, {}, {}
+    for t in tcases:
+        vh[t["vendor"]] = vh.get(t["vendor"], 0) + 1
+        ih[repr(t["indent"])] = ih.get(repr(t["indent"]), 0) + 1
+        sh[t["src"]] = sh.get(t["src"], 0) + 1
+    ctx.coverage["text_views"] = {
+        "cases": len(tcases), "validated_against_impl": len(keep), "source_histogram": sh, "vendor_histogram": vh,
+        "indent_histogram": ih, "with_unchanged_entries": sum(1 for t in tcases if _has_unchanged(t["diff"])),
+        "keyerror_cases": sum(1 for o in res_impl if o.get("confirm_err") == "KeyError"),
+        "resort_errors": sum(1 for o in res_impl if "pre_resorted_err" in o),
+        "max_depth": max((_ddepth(t["diff"]) for t in tcases), default=0),
+        "lines_read_back": sum(len(o.get("confirm") or []) + len(o.get("pre") or []) for o in res_impl),
+        "disagreements": sum(len(res[k]) for k in res if k.startswith("agree_")),
+        "samples": [{"case": tcases[i], "impl": res_impl[i]} for i in keep[:1]],
+    }
+    ctx.coverage["evaluations"] = ctx.coverage.get("evaluations", 0) + len(tcases)
+    ctx.coverage["traces_validated_against_impl"] = ctx.coverage.get("traces_validated_against_impl", 0) + len(keep)
+    ctx.coverage["disagreements_checked"] = ctx.coverage.get("disagreements_checked", 0) + ctx.coverage["text_views"]["disagreements"]
+
+
+IMPORTS = P.PIPE_IMPORTS + "\nFrom Annet Require Import Spec.P_C03."
+CASE_KEYS = ("vendor", "patching", "ordering", "old", "new")
+# one pass over all cases: model = implementation, and the whole predicate on the implementation's output
+PASS1 = {
+    "agree": "fun c => let d := p_make_diff (pc_rules c) (pc_old c) (pc_new c) in diff_eqb d (pc_diff_full c) && "
+             "match pc_patch c with None => true | Some _ => diff_eqb (strip_unchanged d) (pc_diff c) end",
+    "holds": "fun c => P_C03 pm (pc_rules c, pc_old c, pc_new c) (pc_diff_full c) && "
+             "(has_rewrite (pc_rules c) || P_C03_proj pm (pc_rules c, pc_old c, pc_new c) (pc_diff_full c)) && "
+             "match pc_patch c with None => true | Some _ => diff_eqb (strip_unchanged (pc_diff_full c)) (pc_diff c) end",
+}
+AGREE2 = {
+    "agree_diff_full": "fun c => diff_eqb (p_make_diff (pc_rules c) (pc_old c) (pc_new c)) (pc_diff_full c)",
+    "agree_diff": "fun c => match pc_patch c with None => true | Some _ => diff_eqb (strip_unchanged (p_make_diff "
+                  "(pc_rules c) (pc_old c) (pc_new c))) (pc_diff c) end",
+}
+
+
+def slim_pcase(c: dict, o: dict) -> str:
+    """PCase with only what C03 looks at: the two diffs and whether a patch was produced"""
+    o2 = {"diff_full": o.get("diff_full", []), "diff": o.get("diff", []), "patch": [], "cmd_paths": [], "patch_lines": []}
+    if o.get("err") == "AssertionError":
+        o2["err"] = "AssertionError"
+    return P.coq_pcase(c, o2)
+
+
+def case_size(c: dict) -> int:
+    return len(str(c["old"])) + len(str(c["new"])) + len(c["patching"])
+
+
+def pipeline_stage(ctx, n: int):
+    """make_diff / _diff_and_patch on the shared pipeline stream (3 of 4 cases) and the reorder stream (every
+    4th case); Coq evaluates agreement with the model and P_C03 on the real outputs."""
+    rng, rrng = ctx.rng("pipeline"), ctx.rng("reorder")     # the shared stream is the one C01/C08/C16 draw from
+    cases = []
+    while len(cases) < n:
+        i = len(cases)
+        c = P.gen_case(rng)
+        if i % 4 == 3:
+            c = gen_reorder_case(rrng)
+            if i % 24 == 3:
+                c = dict(c, new=c["old"])
+        elif i % 6 == 0:
+            c = dict(c, new=c["old"])
+        cases.append(c)
+    outs = core.run_impl_sharded("pipeline_runner.py", [P.impl_payload(c) for c in cases])
+
+    def rep(i):
+        r = {"case": {k: cases[i][k] for k in CASE_KEYS}, "impl": outs[i]}
+        if cases[i].get("tags"):
+            r["generator_tags"] = cases[i]["tags"]
+        return r
+
+    fatal = [i for i, o in enumerate(outs) if "fatal" in o or "diff_full_err" in o or
+             ("err" in o and o["err"] != "AssertionError")]
+    for i in fatal[:1]:
+        ctx.add_violation(core.Violation(
+            signature="C03/implementation-raised",
+            what="the real pipeline raised an unexpected exception: " +
+                 str(outs[i].get("fatal") or outs[i].get("err") or outs[i].get("diff_full_err"))[:300],
+            replay=rep(i)))
+    keep = [i for i in range(len(cases)) if i not in set(fatal)]
+    terms = [slim_pcase(cases[i], outs[i]) for i in keep]
+    res = core.run_case_files(ctx.prop, "pcase", IMPORTS, PASS1, terms, per_file=40)
+    bad_holds = sorted((keep[j] for j in res["holds"]), key=lambda i: case_size(cases[i]))
+    bad_agree = sorted((keep[j] for j in res["agree"]), key=lambda i: case_size(cases[i]))
+    if bad_holds:
+        # name the clause(s), smallest failing cases first
+        sel = bad_holds[:60]
+        res2 = core.run_case_files(ctx.prop, "pcase", IMPORTS, {f"holds_{k}": v for k, v in HOLDS.items()},
+                                   [slim_pcase(cases[i], outs[i]) for i in sel], per_file=20, tag="clauses")
+        for k in HOLDS:
+            idx = [sel[j] for j in res2[f"holds_{k}"]]
+            if idx:
+                ctx.add_violation(core.Violation(signature=f"C03/{k}", what=WHAT[k],
+                                                 replay=dict(rep(idx[0]), clause=k, failing_cases=len(bad_holds))))
+    elif bad_agree:
+        sel = bad_agree[:40]
+        res2 = core.run_case_files(ctx.prop, "pcase", IMPORTS, AGREE2,
+                                   [slim_pcase(cases[i], outs[i]) for i in sel], per_file=20, tag="clauses")
+        for a in ("diff_full", "diff"):
+            idx = [sel[j] for j in res2[f"agree_{a}"]]
+            if idx:
+                ctx.add_violation(core.Violation(
+                    signature=f"C03/model-impl-disagree/{a}",
+                    what=f"Coq model and implementation differ on '{a}' (correspondence broken); the property "
+                         f"clauses hold on every implementation output explored",
+                    replay=dict(rep(idx[0]), correspondence=a, disagreeing_cases=len(bad_agree)), no_input=True))
+    seen, nt = set(), 0
+    for i in keep:
+        h = core.canon_hash([cases[i][k] for k in CASE_KEYS])
+        if h in seen:
+            continue
+        seen.add(h)
+        if len(P.diff_ops(outs[i].get("diff_full", [])) - {"unchanged"}) >= 2 and P.tree_depth(cases[i]["new"]) >= 2:
+            nt += 1
+    vend: dict = {}
+    for c in cases:
+        vend[c["vendor"]] = vend.get(c["vendor"], 0) + 1
+    ctx.coverage.update({
+        "evaluations": len(cases),
+        "distinct_nontrivial": nt,
+        "rule": "3 of 4 cases: the shared pipeline stream (random structured rulebooks, nesting<=4, *, ~, */re/, %global, "
+                "%ordered, %rewrite, %parent, logics; old drawn from the rules, new = mutation of old; every 6th "
+                "case new = old); every 4th case: a separately seeded stream of reorderings of the rows of one "
+                "%ordered/%rewrite rule at config depth 1-3 (see reorder_stream); distinct by (vendor, rulebooks, "
+                "old, new); non-trivial = the real diff holds >= 2 different ops other than unchanged and new has "
+                "depth >= 2; textual views: see text_views",
+        "samples": [rep(i) for i in keep[:2]],
+        "traces_validated_against_impl": len(keep),
+        "disagreements_checked": len(bad_agree),
+        "assertion_error_cases": sum(1 for o in outs if o.get("err") == "AssertionError"),
+        "vendor_histogram": vend,
+        "max_tree_depth": max((P.tree_depth(c["old"]) for c in cases), default=0),
+        "reorder_stream": reorder_histogram(cases),
+    })
+    ctx.assumptions += [
+        "rule patterns restricted to the plain rule language of Model/Pattern.v (C07)",
+        "not modelled: %ignore_case re-keying, %multiline, %comment/add_comments, vendor %logic/%diff_logic functions",
+        "textual views: colours and show_rules comment lines of gen_pre_as_diff are switched off; resort_diff is "
+        "not modelled (its output is only checked through the per-level multiset predicate)",
+    ]
+    return cases, outs
+
+
 def run(ctx):
-    P.run_pipeline_property(
-        ctx, THEOREM_FILE, holds=HOLDS, what=WHAT, extra_imports="From Annet Require Import Spec.P_C03.",
-        tweak=tweak, agree=("diff_full", "diff"),
-        nontrivial=lambda c, o: len(P.diff_ops(o.get("diff_full", [])) - {"unchanged"}) >= 2 and P.tree_depth(c["new"]) >= 2,
-        rule_text="the real diff holds >= 2 different ops other than unchanged and new has depth >= 2")
+    core.proof_stage(ctx, THEOREM_FILE)
+    cases, outs = pipeline_stage(ctx, 12000 if ctx.thorough else 1200)
+    text_stage(ctx, outs)
 
 
 def replay(ctx, doc):
